@@ -18,7 +18,7 @@ from ..dataflow import Flow, chain, call_name
 from ..poly import Poly
 from ..terms import Terms, mk_cmp, is_none, plain, match, V, ANY, show, \
     subterms, alternatives, stores, method_calls, lookup, truth_paths, \
-    yields, reify, owner_terms, owner_views
+    yields, reify, owner_terms, owner_views, bit_test, one_level
 from ..util import calls_in, qual, formals, returns_of, has_fact
 
 MC = "rig.machine_control.machine_controller"
@@ -603,57 +603,59 @@ def r3_sets(program, rep):
 def r4_machine(program, rep):
     fn = program.get(PU + ":build_machine")
     inst = qual(fn)
-    fl = Flow(fn)
+    T = Terms(fn)
     ps = formals(fn)
-    si = ps[0]
-    r = returns_of(fn)
+    SI = ("param", ps[0])
+    r = [x for x in returns_of(fn) if x.value is not None]
     if len(r) != 1 or not isinstance(r[0].value, ast.Call):
         raise AnalysisError("build_machine: return shape")
-    kw = {k.arg: k.value for k in r[0].value.keywords}
+    rn = T.cfg.node_of(r[0])
+    kw = {k.arg: T.term(k.value, rn) for k in r[0].value.keywords}
     need = ("width", "height", "chip_resources", "chip_resource_exceptions",
             "dead_chips", "dead_links")
     if not all(k in kw for k in need):
         raise AnalysisError("build_machine: Machine(...) keywords")
-    attr = {ps[1]: "num_cores", ps[2]: "largest_free_sdram_block",
-            ps[3]: "largest_free_sram_block"}
+    attr = {("param", ps[1]): "num_cores",
+            ("param", ps[2]): "largest_free_sdram_block",
+            ("param", ps[3]): "largest_free_sram_block"}
     cr = kw["chip_resources"]
     defaults = {}
-    if isinstance(cr, ast.Dict):
-        for k, v in zip(cr.keys, cr.values):
-            defaults[chain(k)] = chain(v)
+    if cr[0] == "new" and cr[2][0] == "dict":
+        defaults = dict(cr[2][1])
     okd = set(defaults) == set(attr)
-    # each default aggregates the right attribute over all chips
-    for res, var in defaults.items():
-        ds = [d for d in fl.defs if d.var == var and d.mode == "assign" and
-              isinstance(d.value, ast.Call)]
-        okd = okd and any(
-            "c.%s for c in itervalues(%s)" % (attr.get(res), si)
-            in unparse(d.value) for d in ds)
+    INFOV = ("elem", ("values", SI))
+    for res, val in defaults.items():
+        field = attr.get(res)
+        found = False
+        for alt in alternatives(val):
+            for st_ in subterms(plain(alt)):
+                if st_[0] == "call" and st_[1] == ("global", "max") and \
+                        len(st_[2]) == 1 and st_[2][0][0] in (
+                            "genexp", "listcomp") and \
+                        st_[2][0][1] == ("attr", INFOV, field) and \
+                        st_[2][0][2] == ((("values", SI), ()),):
+                    found = True
+        okd = okd and found
     rep.check(okd, "C14-R4", inst, "default chip resources aggregate "
               "num_cores / largest free SDRAM / SRAM over all chips into the "
-              "core / sdram / sram resources", construct="defaults %s" %
-              sorted(defaults.items()), node=fn)
-    ex = kw["chip_resource_exceptions"]
-    oke = False
-    okv = False
-    if isinstance(ex, ast.DictComp) and len(ex.generators) == 1:
-        g = ex.generators[0]
-        iv = chain(g.target.elts[1]) if isinstance(g.target, ast.Tuple) \
-            else None
-        oke = unparse(g.iter) == "iteritems(%s)" % si and len(g.ifs) == 1
-        if oke and isinstance(g.ifs[0], ast.BoolOp) and \
-                isinstance(g.ifs[0].op, ast.Or):
-            conds = set(unparse(v) for v in g.ifs[0].values)
-            want = set("%s.%s != %s" % (iv, attr[res], defaults[res])
-                       for res in defaults)
-            oke = conds == want
-        else:
-            oke = False
-        if isinstance(ex.value, ast.Dict):
-            vals = {chain(k): unparse(v) for k, v in zip(ex.value.keys,
-                                                         ex.value.values)}
-            okv = vals == {res: "%s.%s" % (iv, a) for res, a in attr.items()}
-        okv = okv and chain(ex.key) == chain(g.target.elts[0])
+              "core / sdram / sram resources", construct="defaults",
+              node=fn)
+    built = T.built_map(kw["chip_resource_exceptions"])
+    oke = okv = False
+    if built and len(built) == 1 and okd:
+        it, key, val, cond = built[0]
+        E = ("elem", ("items", SI))
+        INFO = ("comp", E, 1)
+        oke = it == ("items", SI) and cond is not None and cond[0] == "or"
+        if oke:
+            want = set()
+            for res, dv in defaults.items():
+                c = mk_cmp("NotEq", ("attr", INFO, attr[res]), plain(dv))
+                want.add(c)
+            oke = set(plain(cond)[1:]) == want
+        pv = plain(val)
+        okv = key == ("comp", E, 0) and pv[0] == "dict" and dict(pv[1]) == {
+            res: ("attr", INFO, a_) for res, a_ in attr.items()}
     rep.check(oke, "C14-R4", inst, "a chip is an exception iff any of its "
               "three quantities differs from the very value used as the "
               "default", construct="exception test", node=fn,
@@ -663,66 +665,119 @@ def r4_machine(program, rep):
     rep.check(okv, "C14-R4", inst, "each exception lists the chip's own "
               "cores, SDRAM and SRAM under the right resource",
               construct="exception values", node=fn)
-    okg = unparse(kw["width"]) == "%s.width" % si and \
-        unparse(kw["height"]) == "%s.height" % si and \
-        unparse(kw["dead_chips"]) == "set(%s.dead_chips())" % si and \
-        unparse(kw["dead_links"]) == "set(%s.dead_links())" % si
+    okg = kw["width"] == ("attr", SI, "width") and \
+        kw["height"] == ("attr", SI, "height") and \
+        plain(kw["dead_chips"]) == ("call", ("global", "set"), ((
+            "call", ("attr", SI, "dead_chips"), (), ()),), ()) and \
+        plain(kw["dead_links"]) == ("call", ("global", "set"), ((
+            "call", ("attr", SI, "dead_links"), (), ()),), ())
     rep.check(okg, "C14-R4", inst, "size, dead chips and dead links come "
               "from the same system description", construct="geometry",
               node=fn)
     rep.floor("C14-R4", 4)
 
 
-def _bit_test(e, gname, cname):
-    """Is e a test of exactly bit `cname` of `gname`?"""
-    t = unparse(e)
-    return t in ("1 << %s & %s" % (cname, gname),
-                 "%s & 1 << %s" % (gname, cname),
-                 "%s >> %s & 1" % (gname, cname))
+def _bitset(term):
+    """(iterable term, index term, [(condition, polarity)]) when ``term`` is
+    the bit mask with bit i set for the selected i of an iterable: either
+    ``sum(1 << i for ... if c)`` or a mask that starts at 0 and has
+    ``1 << i`` or-ed in by a loop under a test."""
+    t = plain(term)
+    m = match(("call", ("global", "sum"),
+               (("genexp", ("binop", "LShift", ("const", 1), V("i")),
+                 ((V("it"), V("conds")),)),), ()), t)
+    if m is not None:
+        cs = []
+        for c in m["conds"]:
+            pol = True
+            while c[0] == "not":
+                c, pol = c[1], not pol
+            cs.append((c, pol))
+        return m["it"], m["i"], cs
+    if term[0] != "mu":
+        return None
+    mu = term[1]
+    T = mu.T
+    res = None
+    for i in mu.ids:
+        b_ = T.binds[i]
+        v = T._bind_term(b_)
+        if v == ("const", 0):
+            continue
+        if v[0] == "binop" and v[1] == "BitOr":
+            bit = [x for x in (v[2], v[3]) if x[0] == "binop" and
+                   x[1] == "LShift" and x[2] == ("const", 1)]
+            lp = b_.node.ast
+            while lp is not None and not isinstance(lp, ast.For):
+                lp = getattr(lp, "_parent", None)
+            if len(bit) == 1 and lp is not None:
+                head = T.cfg.loop_head[id(lp)]
+                conds = [T.cond(a.ast, a, a.polarity) for a in T.cfg.nodes
+                         if a.kind == "assume" and a.ast is not None and
+                         _inside(a.ast, lp) and
+                         T.cfg.dominates(a, b_.node)]
+                res = (plain(T.term(lp.iter, head)), plain(bit[0][3]),
+                       [(plain(c), p_) for c, p_ in conds])
+                continue
+        return None
+    return res
 
 
 def r5_reservations(program, rep):
     fn = program.get(PU + ":build_core_constraints")
     inst = qual(fn)
-    fl = Flow(fn)
-    g = "globally_reserved"
-    exts = calls_in(fn, "extend")
-    comps = []
-    for c in exts:
-        inner = c.args[0]
-        if isinstance(inner, ast.Call) and \
-                call_name(inner)[0] == "_get_minimal_core_reservations":
-            comps.append(inner)
-    ok = len(comps) == 2
+    T = Terms(fn)
+    ps = formals(fn)
+    SI = ("param", ps[0])
+    mn = program.get(PU + ":_get_minimal_core_reservations")
+    from ..util import bind
+    batches = []
+    for c in calls_in(fn, "_get_minimal_core_reservations"):
+        n = T.cfg.node_containing(c)
+        batches.append((c, n, {k: T.term(v, n)
+                               for k, v in bind(c, mn).items()}))
+    ok = len(batches) == 2
     rep.check(ok, "C14-R5", inst, "one global and one per-chip batch of "
               "reservations", construct="reservation batches %d" %
-              len(comps), node=fn)
+              len(batches), node=fn)
     if not ok:
         return
-    glob = [c for c in comps if len(c.args) == 2]
-    loc = [c for c in comps if len(c.args) == 3]
-    okg = okl = False
-    if len(glob) == 1 and isinstance(glob[0].args[1], ast.ListComp):
-        lc = glob[0].args[1]
-        gen = lc.generators[0]
-        cv = chain(gen.target)
-        okg = unparse(gen.iter) == "range(18)" and chain(lc.elt) == cv and \
-            len(gen.ifs) == 1 and _bit_test(gen.ifs[0], g, cv)
-    if len(loc) == 1 and isinstance(loc[0].args[1], ast.ListComp):
-        lc = loc[0].args[1]
-        gen = lc.generators[0]
-        okl = unparse(gen.iter) == "enumerate(chip_info.core_states)" and \
-            len(gen.ifs) == 1 and isinstance(gen.ifs[0], ast.BoolOp) and \
-            isinstance(gen.ifs[0].op, ast.And) and \
-            len(gen.ifs[0].values) == 2
-        if okl:
-            cv, sv = [chain(t) for t in gen.target.elts]
-            a, b = gen.ifs[0].values
-            okl = chain(lc.elt) == cv and \
-                unparse(a) == "%s != AppState.idle" % sv and \
-                isinstance(b, ast.UnaryOp) and isinstance(b.op, ast.Not) \
-                and _bit_test(b.operand, g, cv)
-            okl = okl and chain(loc[0].args[2]) == "chip"
+    names = formals(mn)          # core_resource, cores, chip
+    glob = [b_ for b_ in batches if names[2] not in b_[2]]
+    loc = [b_ for b_ in batches if names[2] in b_[2]]
+    IDLE = ("attr", ("global", "AppState"), "idle")
+    okg = okl = okm = False
+    GLOBAL = None
+    if len(glob) == 1:
+        built = T.filtered(glob[0][2][names[1]])
+        if built and len(built) == 1:
+            it, elt, conds = built[0]
+            rng = ("call", ("global", "range"), (("const", 18),), ())
+            okg = plain(it) == rng and elt == ("elem", it) and \
+                len(conds) == 1 and conds[0][1] is True
+            if okg:
+                bt = bit_test(conds[0][0])
+                okg = bt is not None and bt[1] == elt
+                GLOBAL = bt[0] if okg else None
+    if len(loc) == 1 and GLOBAL is not None:
+        E = ("elem", ("items", SI))
+        CS = ("attr", ("comp", E, 1), "core_states")
+        built = T.filtered(loc[0][2][names[1]])
+        if built and len(built) == 1:
+            it, elt, conds = built[0]
+            okl = plain(it) == ("call", ("global", "enumerate"), (CS,), ()) \
+                and elt == ("index", CS) and len(conds) == 2 and \
+                loc[0][2][names[2]] == ("comp", E, 0)
+            if okl:
+                idle = [c for c in conds
+                        if c == (mk_cmp("Eq", ("elem", CS), IDLE), False)]
+                rest = [c for c in conds if c not in idle]
+                okl = len(idle) == 1 and len(rest) == 1 and \
+                    rest[0][1] is False
+                if okl:
+                    bt = bit_test(rest[0][0])
+                    okl = bt is not None and bt[1] == ("index", CS) and \
+                        bt[0] == GLOBAL
     rep.check(okg, "C14-R5", inst, "global reservations = cores whose bit is "
               "set in the all-chips mask (single-bit test of that core)",
               construct="global filter", node=fn)
@@ -733,49 +788,91 @@ def r5_reservations(program, rep):
               fail="the per-chip filter does not test exactly bit <core> of "
                    "the global mask: a busy core can be left without any "
                    "reservation (or reserved twice)")
-    # the mask: AND over chips of (OR of 1 << c for non-idle c)
-    rs = [d for d in fl.defs if d.var == "reserved"]
-    okm = len(rs) == 1 and unparse(rs[0].value) == \
-        "sum((1 << c for c, state in enumerate(chip_info.core_states) " \
-        "if state != AppState.idle))"
-    gd = [d for d in fl.defs if d.var == g]
-    kinds = sorted((d.mode, unparse(d.value) if d.mode == "assign"
-                    else type(d.value.op).__name__) for d in gd)
-    okm = okm and kinds == [("assign", "0"), ("assign", "None"),
-                            ("assign", "reserved"), ("aug", "BitAnd")]
+    # the mask: AND over chips of the chip's busy-core bits
+    if GLOBAL is not None:
+        CSV = ("attr", ("elem", ("values", SI)), "core_states")
+        want_busy = (("call", ("global", "enumerate"), (CSV,), ()),
+                     ("index", CSV),
+                     [(mk_cmp("Eq", ("elem", CSV), IDLE), False)])
+        okm = True
+        n_and = n_busy = 0
+
+        def is_busy(x):
+            return _bitset(x) == want_busy
+
+        def walk(x, seen):
+            nonlocal okm, n_and, n_busy
+            if x[0] == "mu":
+                if x[1] in seen:
+                    return
+                seen.add(x[1])
+                if is_busy(x):
+                    n_busy += 1
+                    return
+            if x[0] in ("mu", "phi", "ite"):
+                for y in one_level(x):
+                    walk(y, seen)
+                return
+            if x in (("const", 0), ("const", None), ("rec",)):
+                return
+            if is_busy(x):
+                n_busy += 1
+                return
+            if x[0] == "binop" and x[1] == "BitAnd":
+                n_and += 1
+                walk(x[2], seen)
+                walk(x[3], seen)
+                return
+            okm = False
+        walk(GLOBAL, set())
+        okm = okm and n_and >= 1 and n_busy >= 1
     rep.check(okm, "C14-R5", inst, "global mask = AND over all chips of the "
               "chip's non-idle-core bits (0 for an empty machine)",
               construct="global mask", node=fn)
-    mn = program.get(PU + ":_get_minimal_core_reservations")
+    rep.guard("C14-R5", _range_merging, program, rep, mn)
+    rep.floor("C14-R5", 4)
+
+
+def _range_merging(program, rep, mn):
+    """The range-merging generator in the form that keeps the open range in
+    one slice variable; other forms are not judged by this rule."""
     mfl = Flow(mn)
-    ds = [d for d in mfl.defs if d.var == "reservation" and
-          d.mode == "assign"]
+    ds = [d for d in mfl.defs if d.mode == "assign" and
+          isinstance(d.value, ast.Call) and call_name(d.value)[0] == "slice"]
+    names = set(d.var for d in ds)
+    if len(names) != 1:
+        raise AnalysisError("the open range is not kept in one slice "
+                            "variable")
+    rv = list(names)[0]
+    core = None
+    for lp in ast.walk(mn):
+        if isinstance(lp, ast.For) and isinstance(lp.target, ast.Name):
+            core = lp.target.id
     forms = {}
     for d in ds:
         f = mfl.facts(d.node)
         key = tuple(sorted((unparse(c), p) for c, p, _ in f))
         forms[key] = unparse(d.value)
-    ok = forms.get((("reservation is None", True),)) == \
-        "slice(core, core + 1)" and \
-        forms.get((("reservation is None", False),
-                   ("reservation.stop == core", True))) == \
-        "slice(reservation.start, core + 1)" and \
-        forms.get((("reservation is None", False),
-                   ("reservation.stop == core", False))) == \
-        "slice(core, core + 1)"
+    new = "slice(%s, %s + 1)" % (core, core)
+    ok = forms.get((("%s is None" % rv, True),)) == new and \
+        forms.get((("%s is None" % rv, False),
+                   ("%s.stop == %s" % (rv, core), True))) == \
+        "slice(%s.start, %s + 1)" % (rv, core) and \
+        forms.get((("%s is None" % rv, False),
+                   ("%s.stop == %s" % (rv, core), False))) == new
     ys = [n for n in ast.walk(mn) if isinstance(n, ast.Yield)]
+    ps = formals(mn)
     oky = len(ys) == 2 and all(
-        unparse(y.value) == "ReserveResourceConstraint(core_resource, "
-        "reservation, chip)" for y in ys)
+        unparse(y.value) == "ReserveResourceConstraint(%s, %s, %s)" % (
+            ps[0], rv, ps[2]) for y in ys)
     if oky:
         fs = [mfl.facts(mfl.cfg.node_containing(y)) for y in ys]
-        oky = any(has_fact(f, "reservation is not None", True) for f in fs) \
-            and any(has_fact(f, "reservation.stop == core", False)
+        oky = any(has_fact(f, "%s is not None" % rv, True) for f in fs) \
+            and any(has_fact(f, "%s.stop == %s" % (rv, core), False)
                     for f in fs)
     rep.check(ok and oky, "C14-R5", qual(mn), "consecutive cores extend the "
               "current range, a gap emits it and starts a new one, the last "
               "range is emitted", construct="range merging", node=mn)
-    rep.floor("C14-R5", 5)
 
 
 def _parse_struct(text, name):
